@@ -168,7 +168,7 @@ func (p *Prog) ApplyAnchors(path string) []string {
 		var best, second float64
 		var bestF *ssa.Function
 		for _, f := range fresh {
-			if used[f] || sigOf(f) != e.Sig {
+			if used[f] || !sameSig(sigOf(f), e.Sig) {
 				continue
 			}
 			s := jaccard(e.Feats, featsOf(f))
@@ -201,4 +201,44 @@ func BaseName(f *ssa.Function) string {
 		return a
 	}
 	return f.Name()
+}
+
+// sameSig: equal signatures, also across a method <-> function conversion (the receiver dropped, or turned into
+// the first parameter).
+func sameSig(a, b string) bool {
+	strip := func(s string) string {
+		if len(s) > 7 && s[:7] == "method " {
+			return s[7:]
+		}
+		return s
+	}
+	if a == b {
+		return true
+	}
+	a, b = strip(a), strip(b)
+	if a == b {
+		return true
+	}
+	dropFirst := func(s string) string {
+		// "func(T1,T2,)(R,)" -> "func(T2,)(R,)"
+		i := len("func(")
+		depth := 0
+		for j := i; j < len(s); j++ {
+			switch s[j] {
+			case '(', '[', '{':
+				depth++
+			case ')', ']', '}':
+				if depth == 0 {
+					return s
+				}
+				depth--
+			case ',':
+				if depth == 0 {
+					return s[:i] + s[j+1:]
+				}
+			}
+		}
+		return s
+	}
+	return dropFirst(a) == b || dropFirst(b) == a
 }
